@@ -95,7 +95,9 @@ Inductive clabel :=
 | CSPPut (n : nat)       (* for _ in self._threads: self._queue.put(self._done_event, True, self._timeout) *)
 | CSPCopy                (* threads = self._threads[:] *)
 | CSPUnlock (ths : list nat)
-| CSPJoin (ths : list nat)   (* for thread in threads: while thread.is_alive(): thread.join(3) *)
+| CSPAlive (ths : list nat)  (* for thread in threads: while thread.is_alive(): *)
+| CSPJoin (ths : list nat)   (*     thread.join(3) *)
+| CSPAlive2 (ths : list nat) (*     if thread.is_alive(): (warning) *)
 | CSPDel                 (* del self._threads[:] *)
 (* clear (called by stop) *)
 | CCLLock
@@ -320,6 +322,10 @@ Definition jnext (timed : bool) (k : jkont) : clabel :=
   | JOp => if timed then CJEnter else CJQJoin JOp
   end.
 
+(** loop heads that are not yield points of their own: an exhausted loop falls through *)
+Definition spput (n : nat) : clabel := match n with O => CSPCopy | S _ => CSPPut n end.
+Definition spalive (ths : list nat) : clabel := match ths with [] => CSPDel | _ => CSPAlive ths end.
+
 Definition cstep (s : st) (c : nat) (fire : bool) : option st :=
   let x := cs s c in
   match cpc x with
@@ -369,21 +375,27 @@ Definition cstep (s : st) (c : nat) (fire : bool) : option st :=
   | CSPTest => if fire then None else Some (if stopped s then cret s c else cgo s c CSPSet)
   | CSPSet => if fire then None else Some (cgo (set_stopped s true false false) c CSPLock)
   | CSPLock => if fire then None else
-      option_map (fun s' => cgo s' c (CSPPut (length (threads s)))) (acquire s (TC c))
+      option_map (fun s' => cgo s' c (spput (length (threads s)))) (acquire s (TC c))
   | CSPPut n => if fire then None else
       match n with
       | O => Some (cgo s c CSPCopy)
-      | S n' => if qfree s then Some (cgo (set_queue s (q s ++ [ISent]) (unfinished s + 1) (epoch s)) c (CSPPut n')) else None
+      | S n' => if qfree s then Some (cgo (set_queue s (q s ++ [ISent]) (unfinished s + 1) (epoch s)) c (spput n')) else None
       end
   | CSPCopy => if fire then None else Some (cgo s c (CSPUnlock (threads s)))
-  | CSPUnlock ths => if fire then None else option_map (fun s' => cgo s' c (CSPJoin ths)) (release s (TC c))
+  | CSPUnlock ths => if fire then None else option_map (fun s' => cgo s' c (spalive ths)) (release s (TC c))
+  | CSPAlive ths => if fire then None else
+      match ths with
+      | [] => Some (cgo s c CSPDel)
+      | w :: r => Some (cgo s c (match wpc (ws s w) with WDead => spalive r | _ => CSPJoin ths end))
+      end
   | CSPJoin ths =>
       match ths with
       | [] => if fire then None else Some (cgo s c CSPDel)
       | w :: r =>
-          if fire then Some s                      (* join(3) timed out: loop again *)
-          else match wpc (ws s w) with WDead => Some (cgo s c (CSPJoin r)) | _ => None end
+          if fire then Some (cgo s c (CSPAlive2 ths))          (* join(3) timed out *)
+          else match wpc (ws s w) with WDead => Some (cgo s c (CSPAlive2 ths)) | _ => None end
       end
+  | CSPAlive2 ths => if fire then None else Some (cgo s c (CSPAlive ths))
   | CSPDel => if fire then None else Some (cgo (set_threads s [] (next_w s)) c CCLLock)
   (* ---- clear *)
   | CCLLock => if fire then None else option_map (fun s' => cgo s' c CCLGet) (acquire s (TC c))
